@@ -88,7 +88,12 @@ class Path:
 
 
 class SymExec:
-    def __init__(self, funcs, opaque=(), consts=None):
+    def __init__(self, funcs, opaque=(), consts=None, lenient=False):
+        # lenient: callees without a model return an opaque token / fresh Boolean / Option with a fresh
+        # discriminant (chosen from the destination's declared type) and are recorded as events
+        # ("call", callee, args, result); used for path properties ("every path calls f before g"),
+        # never for arithmetic post-conditions.
+        self.lenient = lenient
         self.funcs = funcs
         self.opaque = tuple(opaque)          # (regex, tag, result kind): the call is recorded as event (tag, args, line)
         self.consts = consts or {}           # name -> Func of inline constants
@@ -155,6 +160,8 @@ class SymExec:
             if isinstance(v, tuple) and v and v[0] == "REFVAL":
                 return v[1]
             raise Unsupported("deref of %r in %s" % (v, text))
+        if self.lenient and isinstance(v, tuple) and v and v[0] == "OPAQUE" and pr[0] in ("field", "variant"):
+            return ("OPAQUE", "%s.%s" % (v[1], pr[1]))
         if pr[0] == "variant":
             if isinstance(v, tuple) and v and v[0] == "ENUM":
                 idx = VARIANT_BY_NAME.get(pr[1])
@@ -250,6 +257,9 @@ class SymExec:
             if isinstance(v, tuple) and v and v[0] == "ENUM":
                 d = v[1]
                 return z3.BitVecVal(d, 64) if isinstance(d, int) else z3.ZeroExt(64 - d.size(), d) if d.size() < 64 else d
+            if self.lenient and isinstance(v, tuple) and v and v[0] == "OPAQUE":
+                self.fresh += 1
+                return z3.BitVec("discriminant_%d" % self.fresh, 64)
             raise Unsupported("discriminant of %r" % (v,))
         m = re.match(r"^(Eq|Ne|Lt|Le|Gt|Ge|BitAnd|BitOr|BitXor|Add|Sub|Mul)\((.+)\)$", rv)
         if m:
@@ -297,6 +307,7 @@ class SymExec:
         """All paths from start_bb until a block in `stop` is about to be entered, the function returns,
         or a panic is reached. Returns a list of Path (path condition not yet checked for feasibility)."""
         done = []
+        self.cur_locals = func.locals
         work = [(start_bb, Path(dict(env), list(pc or []), [], {}))]
         while work:
             bb, path = work.pop()
@@ -420,6 +431,8 @@ class SymExec:
         return v
 
     def call(self, path, dst, callee, vals, ret_bb, line):
+        path_func_locals = getattr(self, "cur_locals", {})
+
         def ret(v, p=path):
             if dst:
                 p.env[dst] = v
@@ -509,4 +522,18 @@ class SymExec:
                 if kind == "wrap":
                     return ret((tag.upper(),) + tuple(args))
                 return ret(("OPAQUE", tag))
+        if self.lenient:
+            self.fresh += 1
+            ty = (path_func_locals.get(dst, "") if dst else "")
+            short = re.sub(r"<.*", "", callee.split("::")[-1]) or callee[-30:]
+            if ty == "bool":
+                v = z3.Bool("ret_%s_%d" % (short, self.fresh))
+            elif re.match(r"^(?:std::option::)?Option<", ty):
+                d = z3.BitVec("ret_%s_is_some_%d" % (short, self.fresh), 8)
+                path.pc.append(z3.Or(d == 0, d == 1))
+                v = enum(d, {1: [("OPAQUE", "ret:%s#%d.some" % (short, self.fresh))]})
+            else:
+                v = ("OPAQUE", "ret:%s#%d" % (short, self.fresh))
+            path.events.append(("call", callee, [self.deref(path, x) for x in vals], v, line))
+            return ret(v)
         raise Unsupported("unknown callee %s @%s" % (callee, line))
